@@ -49,7 +49,8 @@ def propagator_forms(ix, name, square=True):
     args = I.symbolic_args(f, flags)
     field = Sym(f.params[0])
     N = Rat.sym("N[%s]" % f.params[0], ("int", "size"))
-    return f, field, N, I.returns(f, args)
+    # decisions taken inside helpers (e.g. the sign of a step distance) are decisions of the propagator's paths
+    return f, field, N, [(c_, v_) for c_, n_, v_ in I.paths(f, args, split="deep")]
 
 
 def run(rep, tier, root=None):
